@@ -94,6 +94,9 @@ func unfoldRules(c *core.Ctx) {
 			c.Undecided("append-once", "hseq.unfold", uf.Pos(), "no loop-carried listing")
 			return
 		}
+	} else if ui.closure {
+		fv := uf.FreeVars[ui.listFV]
+		cell = &ir.Term{Op: "free", Aux: fv.Name(), Typ: fv.Type(), Src: fv}
 	} else {
 		cell = &ir.Term{Op: "faddr", Aux: ui.cellField, Args: []*ir.Term{{Op: "param", Aux: uf.Params[ui.recvP].Name()}}}
 	}
@@ -163,13 +166,24 @@ func unfoldRules(c *core.Ctx) {
 					if st.Kind != ir.KCall || st.Static != uf {
 						continue
 					}
-					cellAt := &ir.Term{Op: "faddr", Aux: ui.cellField, Args: []*ir.Term{st.A[ui.recvP]}}
+					var cellAt, obj *ir.Term
+					if ui.closure {
+						if st.Callee == nil || st.Callee.Op != "closure" || ui.listFV >= len(st.Callee.Args) {
+							okRoot = false
+							why = "the listing variable the function literal captures cannot be identified at the root call"
+							continue
+						}
+						cellAt = st.Callee.Args[ui.listFV]
+					} else {
+						obj = st.A[ui.recvP]
+						cellAt = &ir.Term{Op: "faddr", Aux: ui.cellField, Args: []*ir.Term{obj}}
+					}
 					var last *ir.Term
 					for _, s2 := range p.Steps[:i] {
 						if s2.Kind == ir.KStore && ir.Same(s2.A[0], cellAt) {
 							last = s2.A[1]
 						}
-						if s2.Kind == ir.KStore && ir.Same(s2.A[0], st.A[ui.recvP]) && s2.A[1].Op == "lit" {
+						if obj != nil && s2.Kind == ir.KStore && ir.Same(s2.A[0], obj) && s2.A[1].Op == "lit" {
 							last = ir.FieldOf(s2.A[1], ui.cellField)
 						}
 					}
@@ -302,7 +316,7 @@ func unfoldRules(c *core.Ctx) {
 					okApp = false
 					c.Fail("append-once", "hseq.unfold", rec.Pos(), "the descent runs before the embedded struct's own entry is appended")
 				}
-				if !paramOf(rec.A[ui.recvP], uf, ui.recvP) {
+				if !ui.closure && !paramOf(rec.A[ui.recvP], uf, ui.recvP) {
 					okApp = false
 					c.Fail("append-once", "hseq.unfold", rec.Pos(), "the descent does not continue on the same listing")
 				}
@@ -806,6 +820,9 @@ func namesOrderRule(c *core.Ctx) {
 				callInstr, _ = st.Instr.(ssa.Value)
 				if ui.recvP >= 0 && ui.recvP < len(st.A) {
 					cell = &ir.Term{Op: "faddr", Aux: ui.cellField, Args: []*ir.Term{st.A[ui.recvP]}}
+				}
+				if ui.closure && st.Callee != nil && st.Callee.Op == "closure" && ui.listFV < len(st.Callee.Args) {
+					cell = st.Callee.Args[ui.listFV]
 				}
 			}
 		}
